@@ -470,6 +470,68 @@ def trip_bound(ev, hv, conts, st0):
             bound = b if bound is None else max(bound, b)
         if okk and bound is not None and bound >= init.aux:
             return bound - init.aux
+    return countdown_bound(ev, hv, conts)
+
+
+def _nonzero_known(st, t):
+    nz = T.bnot(T.eqz(t))
+    return any(a is nz or (a.op == "ult" and a.args[0].op == "const" and a.args[0].aux == 0 and a.args[1] is t) for a in st.assume)
+
+
+def countdown_bound(ev, hv, conts):
+    """loops counted downwards: one variable K, K-1, ... left when it reaches 0, or two of them of which exactly one is
+    decreased per iteration (a warm-up phase followed by a measured phase): the body is entered at most K (K1 + K2) times"""
+    from .evalmir import add_assume
+    cands = [(n, wh, init, t) for n, wh, init, t in hv.vars
+             if isinstance(t, T.T) and isinstance(init, T.T) and init.op == "const" and t.op in ("sym", "rng") and t.w > 1]
+    if not conts:
+        return None
+
+    def steps(o, wh, t):
+        """set of (delta, guarded) of the variable on this continue path, split on the condition of a top-level ite"""
+        nv = value_at(ev, o.st, wh)
+        if not isinstance(nv, T.T):
+            return None
+        nv = resolve(ev, o.st, nv)
+        return nv
+
+    # one counter
+    for n, wh, init, t in cands:
+        ok = True
+        for o in conts:
+            nv = steps(o, wh, t)
+            if nv is None or nv is not T.sub(t, T.const(1, t.w)) or not _nonzero_known(o.st, t):
+                ok = False
+                break
+        if ok:
+            return init.aux
+    # two counters, exactly one of them decreased per iteration, never below zero
+    for i, (n1, wh1, init1, t1) in enumerate(cands):
+        for n2, wh2, init2, t2 in cands[i + 1:]:
+            ok = True
+            for o in conts:
+                a, b = steps(o, wh1, t1), steps(o, wh2, t2)
+                if a is None or b is None:
+                    ok = False
+                    break
+                conds = [x.args[0] for x in (a, b) if x.op == "ite"]
+                if not conds:
+                    ok = False
+                    break
+                c = conds[0]
+                for pol in (c, T.bnot(c)):
+                    s2 = o.st.fork()
+                    add_assume(s2, pol)
+                    a2, b2 = simplify_under(ev, s2, a), simplify_under(ev, s2, b)
+                    d1 = a2 is T.sub(t1, T.const(1, t1.w)) and b2 is t2 and (_nonzero_known(s2, t1))
+                    d2 = b2 is T.sub(t2, T.const(1, t2.w)) and a2 is t1 and (_nonzero_known(s2, t2))
+                    if not (d1 or d2):
+                        ok = False
+                        break
+                if not ok:
+                    break
+            if ok:
+                return init1.aux + init2.aux
     return None
 
 
@@ -496,7 +558,9 @@ def widen(ev, name, t, wh, conts, old, new, trip, st0):
     w = t.w
     if trip is not None:
         dhi = 0
+        dlo = 0
         okk = True
+        half = 1 << (w - 1)
         for o in conts:
             nv = value_at(ev, o.st, wh)
             if not isinstance(nv, T.T):
@@ -506,11 +570,18 @@ def widen(ev, name, t, wh, conts, old, new, trip, st0):
             if r is None:
                 okk = False
                 break
-            dhi = max(dhi, r[1])
-        if okk and dhi < (1 << (w - 1)):
+            if r[1] < half:
+                dhi = max(dhi, r[1])
+            elif r[0] >= half:
+                dlo = min(dlo, r[0] - (1 << w))  # a decrement: the difference is negative
+            else:
+                okk = False
+                break
+        if okk:
             hi = old[1] + trip * dhi
+            lo = max(0, min(old[0], new[0]) + trip * dlo) if dlo else min(old[0], new[0])
             if hi <= T.mask(w):
-                return (min(old[0], new[0]), max(hi, old[1])), True
+                return (lo, max(hi, old[1])), True
     return (0, T.mask(w)), False
 
 
